@@ -169,6 +169,7 @@ Definition av_size (dbg : bool) (e : encoding) (v : aval) : res N :=
 (* what the DIE writer appends to `.debug_info`: plain bytes, or a zero placeholder whose
    position is remembered for a later patch *)
 Inductive wop :=
+| WMark (id : nat)                          (* ghost, no bytes: w.offset() at the debug_assert that opens DebuggingInformationEntry::write for entry `id` *)
 | WB (bs : list byte)
 | WUnitRef (id : eid) (w : N)               (* unit_refs.push((w.offset(), id)); w.write_udata(0, w) *)
 | WInfoFix (u : nat) (id : eid) (sz : N).   (* debug_info_refs.push(DebugInfoFixup{offset: w.len(), unit, entry, size}); w.write_udata(0, size) *)
@@ -176,7 +177,7 @@ Inductive wop :=
 Definition zeros (n : N) : list byte := repeat x00 (N.to_nat n).
 
 Definition op_bytes (o : wop) : list byte :=
-  match o with WB bs => bs | WUnitRef _ w => zeros w | WInfoFix _ _ sz => zeros sz end.
+  match o with WMark _ => [] | WB bs => bs | WUnitRef _ w => zeros w | WInfoFix _ _ sz => zeros sz end.
 Definition ops_bytes (ops : list wop) : list byte := flat_map op_bytes ops.
 Definition ops_len (ops : list wop) : N := blen (ops_bytes ops).
 
@@ -468,7 +469,7 @@ Fixpoint write_die (dbg : bool) (cx : wcx) (d : die) (pos : N) : res (list wop) 
       let head := blen cb + (if has_sib then w else 0) in
       let* aops := attrs_write dbg cx attrs in
       match ch with
-      | [] => Ok (WB cb :: aops)
+      | [] => Ok (WMark id :: WB cb :: aops)
       | _ =>
           let* cops := (fix go (l : list die) (p : N) : res (list wop) :=
                           match l with
@@ -484,7 +485,7 @@ Fixpoint write_die (dbg : bool) (cx : wcx) (d : die) (pos : N) : res (list wop) 
                         then let* next := chk_sub 64 dbg after (wc_unit_off cx) in
                              let* b := write_udata (wc_be cx) next w in Ok [WB b]
                         else Ok []) in
-          Ok (WB cb :: sibb ++ aops ++ cops ++ [WB [x00]])
+          Ok (WMark id :: WB cb :: sibb ++ aops ++ cops ++ [WB [x00]])
       end
   end.
 
@@ -495,6 +496,15 @@ Fixpoint ops_unit_refs (pos : N) (ops : list wop) : list (N * eid) :=
   | o :: r =>
       let rest := ops_unit_refs (pos + blen (op_bytes o)) r in
       match o with WUnitRef id _ => (pos, id) :: rest | _ => rest end
+  end.
+
+(* where each entry was emitted (ghost) *)
+Fixpoint ops_marks (pos : N) (ops : list wop) : list (nat * N) :=
+  match ops with
+  | [] => []
+  | o :: r =>
+      let rest := ops_marks (pos + blen (op_bytes o)) r in
+      match o with WMark id => (id, pos) :: rest | _ => rest end
   end.
 
 Record fixup := mkFixup { fx_offset : N; fx_size : N; fx_unit : nat; fx_entry : eid }.
